@@ -308,6 +308,9 @@ func TestPropAggregation(t *testing.T) {
 		check("TOML\n"+sb.String(), a)
 		if fun != "percentiles" { // only available in the structured syntax
 			cmd := fmt.Sprintf("addAgg %s %s %s %d %d", fun, cmdFilter(f), format, interval, wait)
+			if rapid.IntRange(0, 3).Draw(t, "paddednumbers") == 0 {
+				cmd = fmt.Sprintf("addAgg %s %s %s 0%d 00%d", fun, cmdFilter(f), format, interval, wait) // zero-padded decimals
+			}
 			if cache != "" {
 				cmd += " cache=" + cache
 			}
@@ -330,8 +333,9 @@ func TestPropAggregation(t *testing.T) {
 type destModel struct {
 	addr   string
 	filter gen.Filter
-	opts   map[string]int // numeric options that are set
-	spool  string         // "", "true", "false"
+	opts   map[string]int  // numeric options that are set
+	padded map[string]bool // written with a leading zero
+	spool  string          // "", "true", "false"
 	pickle string
 	order  []int // permutation of the option positions
 }
@@ -352,7 +356,11 @@ func (d destModel) render() string {
 	}
 	for _, k := range numOpts {
 		if v, ok := d.opts[k]; ok {
-			parts = append(parts, fmt.Sprintf("%s=%d", k, v))
+			if d.padded[k] && v > 0 {
+				parts = append(parts, fmt.Sprintf("%s=0%d", k, v)) // decimal whatever the padding
+			} else {
+				parts = append(parts, fmt.Sprintf("%s=%d", k, v))
+			}
 		}
 	}
 	if d.spool != "" {
@@ -430,7 +438,7 @@ func genCarbonSection(t *rapid.T, suffix string) section {
 	var ds []destModel
 	nset, nomit, nzero := 0, 0, 0
 	for j := 0; j < nd; j++ {
-		d := destModel{addr: fmt.Sprintf("127.0.0.1:%d", 1+j), opts: map[string]int{}}
+		d := destModel{addr: fmt.Sprintf("127.0.0.1:%d", 1+j), opts: map[string]int{}, padded: map[string]bool{}}
 		if typ == "consistentHashing" {
 			if rapid.Bool().Draw(t, "inst") {
 				d.addr += fmt.Sprintf(":i%d", j)
@@ -452,6 +460,7 @@ func genCarbonSection(t *rapid.T, suffix string) section {
 						nzero++
 					}
 				}
+				d.padded[k] = rapid.IntRange(0, 4).Draw(t, fmt.Sprintf("d%d.%s.padded", j, k)) == 0
 				nset++
 			} else {
 				nomit++
